@@ -7,10 +7,31 @@ REPO = os.environ.get('VERIF_REPO', '/repo')
 COQ = os.path.join(ROOT, 'coq')
 CACHE = os.path.join(ROOT, '.cache')
 HARNESS = os.path.join(ROOT, 'harness')
+OUT = ROOT                      # where evidence/ and replays/ are written
+TARGET = os.path.join(CACHE, 'target')
 GUARD = 'fuse_backend_rs_verif'
 NPROC = os.cpu_count() or 4
 
 os.makedirs(CACHE, exist_ok=True)
+
+# Alternate-repo mode (used only to try the checks against a scratch worktree, e.g. a
+# seeded mutation, without touching /repo or the build state of the registered checks):
+# VERIF_REPO=/tmp/wt ./check Cxx  works on private copies of coq/ and harness/ and writes
+# evidence/replays under .cache/alt-<tag>/ .
+if REPO.rstrip('/') != '/repo':
+    REPO = os.path.abspath(REPO)
+    _tag = hashlib.sha1(REPO.encode()).hexdigest()[:8]
+    WORK = os.path.join(CACHE, 'alt-' + _tag)
+    os.makedirs(WORK, exist_ok=True)
+    subprocess.run(['rsync', '-a', '--exclude', 'target', '--exclude', 'Cases', COQ + '/', os.path.join(WORK, 'coq') + '/'], check=True)
+    subprocess.run(['rsync', '-a', '--exclude', 'target', HARNESS + '/', os.path.join(WORK, 'harness') + '/'], check=True)
+    COQ = os.path.join(WORK, 'coq'); HARNESS = os.path.join(WORK, 'harness'); OUT = WORK
+    TARGET = os.path.join(WORK, 'target')
+    for _f in ('Cargo.toml',):
+        _p = os.path.join(HARNESS, _f); _s = open(_p).read().replace('path = "/repo"', 'path = "%s"' % REPO)
+        if open(_p).read() != _s: open(_p, 'w').write(_s)
+
+SCRATCH = CACHE if OUT == ROOT else OUT     # per-repo scratch space (locks, probe builds, case files)
 
 def log(*a):
     print(*a, file=sys.stderr, flush=True)
@@ -32,8 +53,8 @@ def run(cmd, timeout=600, cwd=None, env=None, input=None):
 
 @contextlib.contextmanager
 def lock(name):
-    os.makedirs(os.path.join(CACHE, 'locks'), exist_ok=True)
-    f = open(os.path.join(CACHE, 'locks', name), 'w')
+    os.makedirs(os.path.join(SCRATCH, 'locks'), exist_ok=True)
+    f = open(os.path.join(SCRATCH, 'locks', name), 'w')
     fcntl.flock(f, fcntl.LOCK_EX)
     try:
         yield
@@ -69,6 +90,12 @@ def strip_coq_comments(s):
 def coq_files():
     proj = open(os.path.join(COQ, '_CoqProject')).read().split('\n')
     return [l.strip() for l in proj if l.strip().endswith('.v')]
+
+def coq_cone(prop):
+    """the .v files Props/<prop>.v depends on (transitively), by coqdep"""
+    rc, out = run(['coqdep', '-Q', '.', 'FB', '-sort', 'Props/%s.v' % prop], cwd=COQ, timeout=120)
+    fs = [w for w in out.split() if w.endswith('.v')]
+    return fs or ['Props/%s.v' % prop]
 
 def hygiene(files=None):
     """-> list of 'file:line: text' offences (forbidden vernacular, Variable/Hypothesis outside Section)."""
@@ -185,19 +212,21 @@ def cargo_build(bins=None, features=None, timeout=1800, release=False):
         if release: cmd.append('--release')
         for b in (bins or []): cmd += ['--bin', b]
         if features: cmd += ['--features', ','.join(features)]
-        env = {'RUSTFLAGS': '--cfg %s' % GUARD, 'CARGO_TARGET_DIR': os.path.join(CACHE, 'target')}
+        env = {'RUSTFLAGS': '--cfg %s' % GUARD, 'CARGO_TARGET_DIR': TARGET}
         rc, out = run(cmd, cwd=HARNESS, env=env, timeout=timeout)
-    bindir = os.path.join(CACHE, 'target', 'release' if release else 'debug')
+    bindir = os.path.join(TARGET, 'release' if release else 'debug')
     return rc == 0, out, bindir
 
 # ------------------------------------------------------------------ findings / reports
 def known_findings(prop):
+    """entries of the committed /verif/known_findings.json (assembled from known_findings.d/ by
+    tools/assemble.py, never written at run time) with status 'known' for this property"""
     p = os.path.join(ROOT, 'known_findings.json')
     if not os.path.exists(p): return []
     return [f for f in json.load(open(p)) if f.get('property') == prop and f.get('status') == 'known']
 
 def write_replay(prop, obj):
-    d = os.path.join(ROOT, 'replays'); os.makedirs(d, exist_ok=True)
+    d = os.path.join(OUT, 'replays'); os.makedirs(d, exist_ok=True)
     blob = json.dumps(obj, indent=1, sort_keys=True, default=str)
     h = hashlib.sha1(blob.encode()).hexdigest()[:10]
     p = os.path.join(d, '%s-%s.json' % (prop, h))
@@ -218,7 +247,7 @@ class Evidence:
         self.assumptions = []
         self.violations = 0
     def write(self):
-        d = os.path.join(ROOT, 'evidence'); os.makedirs(d, exist_ok=True)
+        d = os.path.join(OUT, 'evidence'); os.makedirs(d, exist_ok=True)
         obj = {'property_id': self.prop, 'tier': self.tier, 'seed': self.seed, 'level': 'proof',
                'coverage': self.cov, 'assumptions': self.assumptions,
                'wall_s': round(time.time() - self.t0, 2), 'violations': self.violations}
@@ -230,3 +259,103 @@ TRUSTED_COMMON = [
     'Coq 8.16.1 kernel (coqc full .vo build; vm_compute used for finite tables and witnesses; no native_compute)',
     'no Axiom/Parameter/Admitted in the development (grep audit each run); Print Assumptions of every property theorem compared with an allowlist',
 ]
+
+# ------------------------------------------------------------------ case evaluation inside Coq
+IDX_FALSE = ('Definition idx_false (l : list bool) : list N := map fst (filter (fun p => negb (snd p)) '
+             '(combine (map N.of_nat (seq 0 (List.length l))) l)).\n')
+
+def coq_check_cases(name, header, exprs, shard=250, timeout=1200):
+    """exprs: Coq terms of type bool (model run on the case compared with what the implementation did).
+    Evaluated by vm_compute in parallel shards.  -> (failing_indices, error_logs)"""
+    from concurrent.futures import ThreadPoolExecutor
+    shards = [(i, exprs[i:i + shard]) for i in range(0, len(exprs), shard)]
+    def one(sh):
+        base, es = sh
+        body = header + '\n' + IDX_FALSE + 'Eval vm_compute in idx_false [%s].\n' % ';\n'.join(es)
+        rc, out = coq_eval('%s_%d' % (name, base), body, timeout=timeout)
+        ans = coq_flat(out)
+        if rc != 0 or len(ans) != 1: return base, None, out[-1500:]
+        if re.match(r'= (\[\]|nil)\s*:', ans[0]): return base, [], None
+        return base, [base + int(x) for x in re.findall(r'\d+', ans[0].split(':')[0])], None
+    fails, errs = [], []
+    with ThreadPoolExecutor(max_workers=NPROC) as ex:
+        for base, f, err in ex.map(one, shards):
+            if err is not None: errs.append({'shard_base': base, 'log': err})
+            else: fails += f
+    return sorted(fails), errs
+
+def coq_eval_values(name, header, exprs, shard=250, timeout=1200):
+    """exprs: Coq terms; returns the printed value (one flat string) per expr, or None on error."""
+    from concurrent.futures import ThreadPoolExecutor
+    shards = [(i, exprs[i:i + shard]) for i in range(0, len(exprs), shard)]
+    def one(sh):
+        base, es = sh
+        body = header + '\n' + ''.join('Eval vm_compute in (%s).\n' % e for e in es)
+        rc, out = coq_eval('%s_%d' % (name, base), body, timeout=timeout)
+        ans = coq_flat(out)
+        if rc != 0 or len(ans) != len(es): return [None] * len(es), out[-1500:]
+        return ans, None
+    res, errs = [], []
+    with ThreadPoolExecutor(max_workers=NPROC) as ex:
+        for a, err in ex.map(one, shards):
+            res += a
+            if err: errs.append(err)
+    return res, errs
+
+def hexN(bs):
+    """bytes -> Coq term of type list N via the hex decoder of Lib/Hex.v: (unhex "0a1b")"""
+    return '(unhex "%s")' % bytes(bs).hex()
+
+def finding_known(f, known):
+    for k in known:
+        sig = k.get('signature')
+        if isinstance(sig, str) and sig in f.get('what', ''): return k
+        if isinstance(sig, dict) and all(f.get('sig', {}).get(a) == b for a, b in sig.items()): return k
+    return None
+
+def finish(ev, prop, findings, broken):
+    """Classification per the decision table of DESIGN.md 2.4. findings: concrete failing inputs
+    (dicts with 'what' and the replayable input); broken: proof obligations / ties that no longer check."""
+    known = known_findings(prop)
+    new = []; seen_known = {}
+    for f in findings:
+        k = finding_known(f, known)
+        if k is not None: seen_known[json.dumps(k.get('signature'), sort_keys=True)] = k
+        else: new.append(f)
+    for k in seen_known.values():
+        print('KNOWN-FINDING: property=%s %s' % (prop, k['what']), flush=True)
+    rc = 0
+    if new:
+        violation(prop, {'property': prop, 'kind': 'property fails on the implementation',
+                         'failing': new[:10], 'n_failing': len(new), 'broken_obligations': broken[:10]})
+        rc = 1
+    elif broken:
+        violation(prop, {'property': prop,
+                         'kind': 'a proof obligation or the model-code correspondence no longer checks; no concrete failing input was found',
+                         'broken': broken[:20]}, no_input=True)
+        rc = 1
+    ev.violations = len(new) + (1 if (broken and not new) else 0)
+    ev.cov['known_findings_seen'] = len(seen_known)
+    ev.write()
+    return rc
+
+def std_audit(ev, prop, broken, allow_axioms=()):
+    """Coq build + Props audit + hygiene; fills evidence; appends to broken. -> audit dict"""
+    audit = props_audit(prop, allow_axioms)
+    ev.cov['obligations'] = audit['obligations']
+    ev.cov['discharged'] = audit['discharged']
+    ev.cov['axioms'] = audit['axioms']
+    ev.cov['theorems'] = audit['theorems']
+    hy = hygiene(coq_cone(prop))
+    ev.cov['cone_files'] = coq_cone(prop)
+    if hy:
+        broken.append({'kind': 'hygiene', 'offences': hy[:20]}); ev.cov['discharged'] = 0
+    elif audit['ok']:
+        ev.cov['discharged'] += 1
+    if not audit['ok']:
+        es = audit['error_site']
+        broken.append({'kind': 'proof', 'theorem_or_lemma': es[2] if es else None,
+                       'site': list(es[:2]) if es else None, 'message': es[3] if es else audit['log'][-1500:],
+                       'disallowed_axioms': audit.get('disallowed_axioms'),
+                       'missing_print_assumptions': audit.get('missing_print_assumptions')})
+    return audit
